@@ -382,6 +382,9 @@ class Real(object):
         self.started = True
         self.settle()
 
+    def acts_dormant(self):
+        return [k for k, st in self.acts.items() if st in DORMANT_ACTION]
+
     def report_choices(self, held=False, canceled=False):
         """[task, route, item, status] for every report the provider may make now.
         held: a workflow pause request is outstanding (children are not resumed bottom-up);
